@@ -164,9 +164,13 @@ impl Prop for C08T {
             }
             None
         };
+        let crash = |mode: &str, o: &Out| Verdict::Violation {
+            class: format!("crash-on-payload-{mode}"),
+            detail: format!("the message runs with trivial payloads but crashes with these payloads ({mode}): {}\n    twin:{}", o.panic.clone().unwrap_or_else(|| "no progress".into()), brief(&t)),
+        };
         let a = exec(&run_exec(sc, bytes.clone(), vec![0, bytes.len()], Sink::Sim(None), vec![]), st);
         if a.crashed() {
-            return Verdict::Skip("skip:crashed(C05)");
+            return crash("run", &a);
         }
         if let Some(v) = judge("run", &a) {
             return v;
@@ -182,7 +186,7 @@ impl Prop for C08T {
             for i in 0..sc.scheds.len() {
                 let o = exec(&process_exec(sc, bytes.clone(), i), st);
                 if o.crashed() {
-                    return Verdict::Skip("skip:crashed(C05)");
+                    return crash("process", &o);
                 }
                 if let Some(v) = judge("process", &o) {
                     return v;
